@@ -116,7 +116,7 @@ def _replay(items):
         impl = Impl()
         try:
             hist = []
-            for pe in g.path_to(e["_s"]) + pre:
+            for pe in g.path_to(pre[0]["_s"] if pre else e["_s"]) + pre:
                 impl.step(pe["act"])
                 hist.append(pe["act"])
             got = impl.step(e["act"])
@@ -140,10 +140,7 @@ def section(chk: Check, max_tasks: int, depth: int, max_pairs: int = 4000):
     recs = common.export_records(chk, "TaskScheduler_MBT", cfg, "TaskScheduler t%d d%d" % (max_tasks, depth))
     g = Graph(recs)
     _G = g
-    pairs = g.selfloop_pairs()
-    if len(pairs) > max_pairs:      # many events are idle when nothing is in their scope: thin deterministically
-        stride = len(pairs) // max_pairs + 1
-        pairs = pairs[::stride]
+    pairs = g.merge_pairs(max_pairs)      # includes self-loops (events that find nothing in their scope)
     ids = g.reachable_edges() + pairs
     results = common.parallel_map(_replay, common.chunked(ids, common.NCPU * 4))
     chk.count(len(ids))
